@@ -84,6 +84,8 @@ def match_known(v, findings):
             continue
         if 'input' in m and not re.search(m['input'], canon(v.input)):
             continue
+        if 'detail' in m and not re.search(m['detail'], canon(v.detail)):
+            continue
         return k
     return None
 
